@@ -39,6 +39,7 @@ type Engine struct {
 
 	Tier        int
 	ReverseMaps bool
+	LazySlices  bool
 	RunGoInline bool
 	SkipInit    map[string]bool
 
@@ -88,6 +89,7 @@ func Load(repoDir string, patterns []string, overlay map[string][]byte, tags str
 		MaxDepth: 120, MaxSteps: 4_000_000, MaxArray: 1 << 17, MaxIte: 512, LoopBound: 300, MaxLen: 64,
 		SolverKind: "z3", TimeoutMs: 10000, Workers: 8, MaxPaths: 200000,
 		SkipInit:   map[string]bool{},
+		LazySlices: true,
 		intrinsics: map[string]intrinsicFn{},
 		opaquePkgs: map[string]string{},
 	}
@@ -159,6 +161,7 @@ type PathResult struct {
 	Steps           int
 	Decisions       []int
 	Stack           []string
+	ForkSites       []string
 }
 
 func (r *PathResult) addCut(s string) {
@@ -193,6 +196,7 @@ type HarnessResult struct {
 	Funcs           map[string]bool
 	Events          map[string]int
 	NontrivialPaths int
+	ForkSites       map[string]int
 }
 
 // ---------------------------------------------------------------------
@@ -208,7 +212,7 @@ func (e *Engine) Explore(fn *ssa.Function, name string) *HarnessResult {
 	t0 := time.Now()
 	hr := &HarnessResult{Name: name, Outcomes: map[string]int{}, Violations: map[string]*Violation{}, ViolCount: map[string]int{},
 		Reached: map[string]int{}, Cuts: map[string]int{}, Unsupported: map[string]int{}, Unwinds: map[string]int{},
-		Funcs: map[string]bool{}, Events: map[string]int{}}
+		Funcs: map[string]bool{}, Events: map[string]int{}, ForkSites: map[string]int{}}
 	var mu sync.Mutex
 	work := [][]int{nil}
 	active := 0
@@ -289,6 +293,9 @@ func (e *Engine) Explore(fn *ssa.Function, name string) *HarnessResult {
 				}
 				for _, ev := range res.Events {
 					hr.Events[ev]++
+				}
+				for _, f := range res.ForkSites {
+					hr.ForkSites[f]++
 				}
 				hr.Asserts += res.Asserts
 				hr.Discharged += res.Discharged
@@ -406,7 +413,13 @@ func (in *Interp) currentModel() map[string]uint64 {
 
 func (in *Interp) reportPanic(p goPanic) {
 	m := in.currentModel()
-	in.reportAt("panic", "", p.msg, m, p.site)
+	v := Violation{Kind: "panic", Msg: p.msg, Site: p.site, Model: m, Stack: p.stack, RepoFn: p.repoFn, RepoLine: p.repoLine}
+	if p.repoFile != "" {
+		v.SrcText = in.eng.srcLine(p.repoFile, p.repoLine)
+		v.RepoFile = shortPath(p.repoFile)
+	}
+	v.Tape = in.buildTape(m)
+	in.res.Violations = append(in.res.Violations, v)
 }
 
 func (in *Interp) report(kind, msg string, model map[string]uint64) {
